@@ -864,6 +864,10 @@ func mkFToInt(a *Term, w int) *Term {
 			return mkConstS(64, int64(f))
 		}
 	}
+	// int → float64 → int is the identity for integers of magnitude below 2^53 (exactly representable)
+	if a.op == OSToF && a.a[0].w == w && a.a[0].lo > -(1<<53) && a.a[0].hi < (1<<53) {
+		return a.a[0]
+	}
 	t := &Term{op: OFToS, kind: 'v', w: w, a: []*Term{a}}
 	t.lo, t.hi = fullRange(w)
 	return ts.intern(t)
